@@ -399,6 +399,37 @@ func Run(c *core.Ctx) int {
 			c.Count("cross-process-envelopes", int64(len(workerWant)))
 		}
 	}
+	// every registered schema: the document that carries nothing but its `$schema` is either refused
+	// when read, or written back as the same text (parse then serialise is the identity)
+	if rc.Data == nil && rc.Doc == nil {
+		for _, id := range schema.List() {
+			text := []byte(`{"$schema":"` + id.String() + `"}`)
+			obj := new(schema.Object)
+			var uerr, merr error
+			var out []byte
+			if pan := core.Protect(func() {
+				if uerr = json.Unmarshal(text, obj); uerr == nil {
+					out, merr = json.Marshal(obj)
+				}
+			}); pan != "" {
+				c.Count("schema-only:panic", 1) // a C14 matter
+				continue
+			}
+			c.Eval("schema-only:"+id.String(), true)
+			switch {
+			case uerr != nil:
+				c.Count("schema-only:refused-when-read", 1)
+			case merr != nil:
+				c.Fail("", fmt.Sprintf("%s is read without error but cannot be written again: %v", text, merr), Case{Name: "schema-only", Data: text})
+			default:
+				c.Count("schema-only:written-back", 1)
+				var a, b any
+				if json.Unmarshal(text, &a) != nil || json.Unmarshal(out, &b) != nil {
+					c.Fail("", fmt.Sprintf("%s is written back as invalid JSON: %s", text, out), Case{Name: "schema-only", Data: text})
+				}
+			}
+		}
+	}
 	// recalculation after an input edit: nothing of the first calculation may survive
 	// ("recompute everything from inputs, reset totals")
 	if rc.Doc != nil || rc.Data == nil {
